@@ -205,6 +205,8 @@ static void fill_cfg(cfg_t *c)
 		    (1.0 + 0.1 * f) * c->mag;
 	    if (f == 0)
 		c->m[f][0] = 40.0 * c->mag;	/* purely resistive */
+	    if (f == 0 && n > 1)
+		c->m[f][1] = 25.0 * I * c->mag;	/* purely reactive */
 	} else if (c->type == VPT_S) {
 	    for (int i = 0; i < n * n; ++i)
 		c->m[f][i] = s[i] * c->mag;
